@@ -546,11 +546,30 @@ impl<'r> ContainerGen<'r> {
     fn defcal(&mut self, k: usize) -> Item {
         let key = &DEFCAL_KEYS[k];
         let (instructions, body_desc) = self.cal_body(key.qubits);
+        // Near-collision variants of the pool key: the same name and qubits with the modifier list
+        // or the parameter list EXTENDED by one element (so the pool key's list is a proper prefix of
+        // the variant's).  They are different keys; an implementation that compares signatures
+        // element-wise without comparing lengths confuses them.
+        let mut mods: Vec<GateModifier> = key.mods.to_vec();
+        let mut params: Vec<Param> = key.params.to_vec();
+        match self.rng.below(20) {
+            0..=2 => mods.push(GateModifier::Dagger),
+            3..=5 => params.push(Param::Num(0.25)),
+            6 => {
+                mods.push(GateModifier::Dagger);
+                mods.push(GateModifier::Dagger);
+            }
+            7 => {
+                mods.push(GateModifier::Dagger);
+                params.push(Param::Num(0.25));
+            }
+            _ => {}
+        }
         let head = format!(
             "{}{}{} {}",
-            mods_text(key.mods),
+            mods_text(&mods),
             key.name,
-            params_text(key.params),
+            params_text(&params),
             qs_text(key.qubits)
         );
         Item {
@@ -558,9 +577,9 @@ impl<'r> ContainerGen<'r> {
             key: head.clone(),
             instr: Instruction::CalibrationDefinition(CalibrationDefinition {
                 identifier: CalibrationIdentifier {
-                    modifiers: key.mods.to_vec(),
+                    modifiers: mods,
                     name: key.name.to_string(),
-                    parameters: key.params.iter().map(|p| p.expr()).collect(),
+                    parameters: params.iter().map(|p| p.expr()).collect(),
                     qubits: key.qubits.iter().map(|q| q.qubit()).collect(),
                 },
                 instructions,
